@@ -8,10 +8,10 @@
 //! Oracle:
 //!  * every coroutine completes with the value the same function yields when called
 //!    sequentially afterwards (an `Error` result or another value = preemption changed it);
-//!  * a Busy coroutine of >= 100 ms with a sibling that was ready behind it is suspended at
-//!    least once although it never yields, and such a sibling starts before it ends;
+//!  * a Busy coroutine of >= 100 ms is suspended at least once although it never yields
+//!    (the monitor's slice is 10 ms);
 //!  * a coroutine in a system call state is never suspended (no Syscall -> Suspend record),
-//!    and no coroutine that had not started before it starts before it has ended;
+//!    and no other coroutine is resumed on its thread between its entering and leaving that state;
 //!  * the process survives.
 
 use open_coroutine_core::common::constants::{CoroutineState, SyscallName, SyscallState};
@@ -46,7 +46,20 @@ pub fn strategy() -> impl Strategy<Value = Case> {
         3 => (1u8..6).prop_map(Co::Yielding),
         2 => (30u8..120).prop_map(Co::SyscallBusy),
     ];
-    proptest::collection::vec(proptest::collection::vec(co, 2..5), 1..9).prop_map(|threads| Case { threads })
+    // most threads start with a long Busy coroutine (the shape the non-trivial rule asks for)
+    proptest::collection::vec((proptest::option::weighted(0.75, (100u8..200).prop_map(Co::Busy)), proptest::collection::vec(co, 1..4)), 1..9).prop_map(|threads| Case {
+        threads: threads
+            .into_iter()
+            .map(|(first, mut rest)| {
+                if let Some(f) = first {
+                    rest.insert(0, f);
+                } else if rest.len() < 2 {
+                    rest.push(Co::Yielding(2));
+                }
+                rest
+            })
+            .collect(),
+    })
 }
 
 #[inline(never)]
@@ -60,6 +73,9 @@ fn checksum(iters: u64, seed: u64) -> u64 {
 
 #[derive(Default, Debug)]
 struct Rec {
+    sys_enter: AtomicU64,
+    sys_leave: AtomicU64,
+    sys_thread: AtomicU64,
     started: AtomicU64,
     ended: AtomicU64,
     running_to_suspend: AtomicU64,
@@ -72,10 +88,34 @@ struct Recorder {
     recs: &'static [Rec],
 }
 
+/// (time, OS thread, coroutine index, 1 = resumed on this thread / 0 = left the CPU)
+static EVENTS: std::sync::Mutex<Vec<(u64, u64, usize, u8)>> = std::sync::Mutex::new(Vec::new());
+static FINISHED: AtomicU64 = AtomicU64::new(0);
+
+fn os_thread() -> u64 {
+    unsafe { libc::pthread_self() as u64 }
+}
+
 impl Listener<(), Option<usize>> for Recorder {
     fn on_state_changed(&self, local: &CoroutineLocal, old: SchedulableCoroutineState, new: SchedulableCoroutineState) {
         let Some(ix) = local.get::<usize>("c22-ix").copied() else { return };
         let Some(r) = self.recs.get(ix) else { return };
+        match new {
+            CoroutineState::Running if !matches!(old, CoroutineState::Syscall((), _, _)) => {
+                if let Ok(mut e) = EVENTS.try_lock() {
+                    e.push((now(), os_thread(), ix, 1));
+                }
+            }
+            CoroutineState::Suspend((), _) | CoroutineState::Complete(_) | CoroutineState::Error(_) | CoroutineState::Cancelled => {
+                if let Ok(mut e) = EVENTS.try_lock() {
+                    e.push((now(), os_thread(), ix, 0));
+                }
+                if !matches!(new, CoroutineState::Suspend((), _)) {
+                    FINISHED.fetch_add(1, Ordering::SeqCst);
+                }
+            }
+            _ => {}
+        }
         if let CoroutineState::Suspend((), _) = new {
             match old {
                 CoroutineState::Running => _ = r.running_to_suspend.fetch_add(1, Ordering::SeqCst),
@@ -134,7 +174,13 @@ pub fn child_main() -> i32 {
                                         if let Some(co) = SchedulableCoroutine::current() {
                                             co.syscall((), SyscallName::write, SyscallState::Executing).expect("enter syscall state");
                                         }
+                                        recs[ix].sys_thread.store(os_thread(), Ordering::SeqCst);
+                                        recs[ix].sys_enter.store(now(), Ordering::SeqCst);
                                         let v = checksum(u64::from(ms) * per_ms, ix as u64);
+                                        recs[ix].sys_leave.store(now(), Ordering::SeqCst);
+                                        if os_thread() != recs[ix].sys_thread.load(Ordering::SeqCst) {
+                                            recs[ix].sys_thread.store(u64::MAX, Ordering::SeqCst);
+                                        }
                                         if let Some(co) = SchedulableCoroutine::current() {
                                             co.running().expect("leave syscall state");
                                         }
@@ -162,8 +208,10 @@ pub fn child_main() -> i32 {
                     let mut results: Vec<(u64, String)> = vec![];
                     let t = Instant::now();
                     let mut done = 0;
-                    while done < cos.len() && t.elapsed() < Duration::from_secs(20) {
-                        match s.try_timed_schedule(Duration::from_millis(50)) {
+                    // coroutines are stolen between the scheduler threads: everybody keeps
+                    // scheduling until all coroutines of the case have finished
+                    while (FINISHED.load(Ordering::SeqCst) as usize) < total && t.elapsed() < Duration::from_secs(20) {
+                        match s.try_timed_schedule(Duration::from_millis(5)) {
                             Ok((_, r)) => {
                                 for (id, v) in r {
                                     done += 1;
@@ -176,8 +224,9 @@ pub fn child_main() -> i32 {
                             }
                         }
                     }
+                    let _ = done;
                     // the scheduler asserts emptiness on drop; leave it alone if work is left
-                    if done < cos.len() {
+                    if (FINISHED.load(Ordering::SeqCst) as usize) < total {
                         std::mem::forget(s);
                     }
                     results
@@ -205,10 +254,12 @@ pub fn child_main() -> i32 {
         let r = &recs[*ix];
         cos_json.push(json!({"thread":ti,"ix":ix,"kind":c,"want":want.to_string(),"got":r.value.load(Ordering::SeqCst).to_string(),
             "started":r.started.load(Ordering::SeqCst).to_string(),"ended":r.ended.load(Ordering::SeqCst).to_string(),
+            "sys_enter":r.sys_enter.load(Ordering::SeqCst).to_string(),"sys_leave":r.sys_leave.load(Ordering::SeqCst).to_string(),"sys_thread":r.sys_thread.load(Ordering::SeqCst).to_string(),
             "r2s":r.running_to_suspend.load(Ordering::SeqCst),"s2s":r.syscall_to_suspend.load(Ordering::SeqCst)}));
     }
     let outs_json: Vec<serde_json::Value> = outs.iter().map(|o| match o { Ok(v) => json!(v), Err(e) => json!(e) }).collect();
-    child::emit(json!({"ev":"result","cos":cos_json,"threads":outs_json,"per_ms":per_ms}));
+    let events: Vec<serde_json::Value> = EVENTS.lock().unwrap().iter().map(|e| json!([e.0.to_string(), e.1.to_string(), e.2, e.3])).collect();
+    child::emit(json!({"ev":"result","cos":cos_json,"threads":outs_json,"per_ms":per_ms,"events":events}));
     unsafe { libc::_exit(0) }
 }
 
@@ -279,36 +330,38 @@ pub fn exec_once(c: &Case) -> Outcome {
             return o;
         }
     }
-    // per thread ordering rules
-    for ti in 0..t {
-        let mine: Vec<&serde_json::Value> = cos.iter().filter(|x| x["thread"].as_u64() == Some(ti as u64)).collect();
-        for a in &mine {
-            let kind: Co = serde_json::from_value(a["kind"].clone()).unwrap_or(Co::Yielding(0));
-            let (sa, ea) = (u(&a["started"]), u(&a["ended"]));
-            let later: Vec<&&serde_json::Value> = mine.iter().filter(|b| u(&b["started"]) > sa).collect();
-            match kind {
-                Co::Busy(ms) if ms >= 100 && !later.is_empty() => {
-                    let r2s = a["r2s"].as_u64().unwrap_or(0);
-                    let sibling_before_end = later.iter().any(|b| u(&b["started"]) < ea);
-                    if r2s == 0 || !sibling_before_end {
-                        o.set_fail(
-                            "C22/long-running-coroutine-not-preempted",
-                            format!("coroutine {} (Busy {ms} ms, ran {} ms) on thread {ti} was suspended {r2s} time(s); a sibling that was ready behind it started before it ended: {sibling_before_end}", a["ix"], (ea - sa) / 1_000_000),
-                        );
-                        return o;
-                    }
+    // events: (time, OS thread, coroutine, resumed?)
+    let events: Vec<(u64, u64, usize, u8)> = res["events"].as_array().map(|a| a.iter().map(|e| (u(&e[0]), u(&e[1]), e[2].as_u64().unwrap_or(0) as usize, e[3].as_u64().unwrap_or(0) as u8)).collect()).unwrap_or_default();
+    for a in &cos {
+        let kind: Co = serde_json::from_value(a["kind"].clone()).unwrap_or(Co::Yielding(0));
+        let ix = a["ix"].as_u64().unwrap_or(0) as usize;
+        match kind {
+            Co::Busy(ms) if ms >= 100 => {
+                // the monitor suspends whatever runs for longer than its 10 ms slice
+                let r2s = a["r2s"].as_u64().unwrap_or(0);
+                if r2s == 0 {
+                    o.set_fail(
+                        "C22/long-running-coroutine-not-preempted",
+                        format!("coroutine {ix} (Busy {ms} ms, ran from start to end in {} ms) never yields and was never suspended", (u(&a["ended"]) - u(&a["started"])) / 1_000_000),
+                    );
+                    return o;
                 }
-                Co::SyscallBusy(ms) => {
-                    if let Some(b) = later.iter().find(|b| u(&b["started"]) < ea) {
-                        o.set_fail(
-                            "C22/coroutine-in-syscall-state-was-interrupted",
-                            format!("coroutine {} (SyscallBusy {ms} ms) on thread {ti}: sibling {} started {} ms before it ended", a["ix"], b["ix"], (ea - u(&b["started"])) / 1_000_000),
-                        );
-                        return o;
-                    }
-                }
-                _ => {}
             }
+            Co::SyscallBusy(ms) => {
+                let (enter, leave, th) = (u(&a["sys_enter"]), u(&a["sys_leave"]), u(&a["sys_thread"]));
+                if th == u64::MAX {
+                    o.set_fail("C22/coroutine-in-syscall-state-was-interrupted", format!("coroutine {ix} (SyscallBusy {ms} ms) entered its system call state on one thread and left it on another"));
+                    return o;
+                }
+                if let Some(e) = events.iter().find(|e| e.1 == th && e.2 != ix && e.3 == 1 && e.0 > enter && e.0 < leave) {
+                    o.set_fail(
+                        "C22/coroutine-in-syscall-state-was-interrupted",
+                        format!("coroutine {ix} (SyscallBusy {ms} ms) was in a system call state for {} ms; coroutine {} was resumed on the same thread {} ms after it had entered that state", (leave - enter) / 1_000_000, e.2, (e.0 - enter) / 1_000_000),
+                    );
+                    return o;
+                }
+            }
+            _ => {}
         }
     }
     o
@@ -349,7 +402,7 @@ pub fn main(args: &Args) -> i32 {
             sub: "preemption",
             rule: "fresh child per case: 1..8 scheduler threads x 2..4 coroutines out of Busy(30..200 ms), Yielding(1..5), SyscallBusy(30..120 ms); non-trivial = >= 4 threads each with a Busy coroutine",
             seed: args.seed,
-            cases: args.cases(60, 1_500),
+            cases: args.cases(120, 2_000),
             shards: 4,
             max_shrink_iters: 30,
         },
